@@ -4156,7 +4156,13 @@ class AsBoolean(WrapsColumnExpression[bool], UnaryExpression[bool]):
     def wrapped_column_expression(self):
         return self.element
 
-    def self_group(self, against: Optional[OperatorType] = None) -> Self:
+    def self_group(
+        self, against: Optional[OperatorType] = None
+    ) -> Union[Self, Grouping[bool]]:
+        if against is not None and operators.is_precedent(
+            self.operator, against
+        ):
+            return Grouping(self)
         return self
 
     def _negate(self):
